@@ -153,8 +153,13 @@ class BlockChain(object):
 
     def add_headers(self, header_iter: Iterable[Any]) -> list[Any]:
         def iterate() -> Generator[tuple[Any, Any], None, None]:
+            locked_size = len(self._locked_chain)
             for header in header_iter:
                 h = header.hash()
+                if self.hash_to_index_lookup.get(h, locked_size) < locked_size:
+                    # a duplicate of a locked block: the rebuilt chain finder must not
+                    # learn its parent (the last locked block has to stay a missing parent)
+                    continue
                 self.weight_lookup[h] = header.difficulty
                 self.unlocked_block_storage[h] = header
                 yield h, header.previous_block_hash
